@@ -2,10 +2,10 @@ package amsim
 
 import (
 	"bytes"
-	"strings"
 	"context"
 	"fmt"
 	"sort"
+	"strings"
 	"time"
 
 	"google.golang.org/protobuf/types/known/timestamppb"
@@ -24,8 +24,8 @@ import (
 // GC, and finishes with two all-pairs full-state exchanges.
 
 type c09State struct {
-	wire     map[int][][]byte // action index -> broadcasts captured while it ran
-	bcasts   int              // broadcasts during the current handler
+	wire     map[int][][]byte     // action index -> broadcasts captured while it ran
+	bcasts   int                  // broadcasts during the current handler
 	accepted map[string]time.Time // id -> newest UpdatedAt that changed some replica's state
 	content  map[string]silDump   // id + updatedAt -> content
 }
@@ -453,10 +453,10 @@ func c09Gen(seed uint64, tier string) *Plan {
 func init() {
 	Register(&Prop{
 		ID: "C09", Level: "exploration", Gen: c09Gen,
-		Check: func(p *Plan, r *RunResult) *Verdict { return &Verdict{} },
-		Rule: "seeded run on 2-4 real instances (clustering off, broadcast functions recorded): 1-4 silence ids with 2-6 crafted versions each (distinct update times; extend/shorten/expire; one or two matcher sets) delivered 0-3 times per replica in independent orders, singly or batched with other versions, from their update instant on (so some arrive past their retention when retention is 3 or 10 minutes, never when it is 2 hours); 0-4 silences created/edited/expired through one replica's API whose recorded broadcasts are relayed to the others with loss, delay, duplication and batching; explicit GC, maintenance GC, Mutes probes, 0-3 mid-run and two final all-pairs full-state exchanges (MarshalBinary -> Merge). Non-trivial: a merge was checked or convergence evaluated; distinct by abstract trace plus merge mix.",
-		Real: []string{"app.New wiring (clustering off)", "silence.Silences (Set, expire, Merge, MarshalBinary, GC, Query)", "silence.Silencer", "api/v2 silence handlers"},
-		Stub: []string{"clock (synctest)", "gossip (recorded broadcasts and crafted protobuf handed to Merge; full-state exchange by MarshalBinary+Merge)", "snapshot disk (simfs)"},
+		Check:       func(p *Plan, r *RunResult) *Verdict { return &Verdict{} },
+		Rule:        "seeded run on 2-4 real instances (clustering off, broadcast functions recorded): 1-4 silence ids with 2-6 crafted versions each (distinct update times; extend/shorten/expire; one or two matcher sets) delivered 0-3 times per replica in independent orders, singly or batched with other versions, from their update instant on (so some arrive past their retention when retention is 3 or 10 minutes, never when it is 2 hours); 0-4 silences created/edited/expired through one replica's API whose recorded broadcasts are relayed to the others with loss, delay, duplication and batching; explicit GC, maintenance GC, Mutes probes, 0-3 mid-run and two final all-pairs full-state exchanges (MarshalBinary -> Merge). Non-trivial: a merge was checked or convergence evaluated; distinct by abstract trace plus merge mix.",
+		Real:        []string{"app.New wiring (clustering off)", "silence.Silences (Set, expire, Merge, MarshalBinary, GC, Query)", "silence.Silencer", "api/v2 silence handlers"},
+		Stub:        []string{"clock (synctest)", "gossip (recorded broadcasts and crafted protobuf handed to Merge; full-state exchange by MarshalBinary+Merge)", "snapshot disk (simfs)"},
 		Assumptions: []string{"relay references are by source action; if shrinking removes the source the relay delivers nothing", "oversized payloads (>= 700 bytes) are not required to be re-broadcast"},
 	})
 }
